@@ -234,6 +234,13 @@ def run(prop, tier, seed, replay):
             if j["id"] not in refs or refs[j["id"]]["errors"]:
                 raise RuntimeError(f"single-process reference for {j['id']} failed: {refs.get(j['id'], {}).get('errors')} {errs}")
         results, errs = run_batches(jobs, nproc=14)
+        # thorough: EVERY schedule of some small worlds (stateless depth-first enumeration of all choice points)
+        dfs_jobs = []
+        if tier == "thorough":
+            for size, nt, mode in ((2, 1, "eager"), (2, 2, "eager"), (2, 3, "eager"), (2, 2, "mixed"), (3, 1, "eager"), (3, 1, "sync")):
+                dfs_jobs.append(dict(id=f"dfs|iter|{size}|{nt}|{mode}", dfs=True, limit=6000, scenario="iter",
+                                     params={"ntasks": nt}, size=size, dir=str(root), schedule={"send_mode": mode}))
+        dfs_results, _ = run_batches(dfs_jobs, nproc=6) if dfs_jobs else ({}, [])
     finally:
         C.remove(root)
 
@@ -289,6 +296,21 @@ def run(prop, tier, seed, replay):
         for kind, line, m in canonicalise(d["trace"], size, sel, sc, p, sched["send_mode"]):
             reqs.append(f"q{len(reqs)} {line}")
             req_meta.append((jid, kind, m, got, rep))
+    for j in dfs_jobs:
+        d = dfs_results.get(j["id"])
+        if d is None:
+            ck.add_violation(f"exhaustive schedule enumeration {j['id']} produced no result", {"job": j["id"]})
+            continue
+        ck.count("dfs:schedules", d["schedules"])
+        ck.count("dfs:exhausted" if d["exhausted"] else "dfs:truncated")
+        ck.case({"exhaustive": j["id"], "schedules": d["schedules"], "complete": d["exhausted"]}, ("dfs", j["id"]))
+        want = sorted(t * t for t in range(j["params"]["ntasks"]))
+        for o in d["outcomes"]:
+            oc = o["outcome"]
+            if oc["d"] or oc["e"] or oc["u"] or (oc["r"] or {}).get("results") != want:
+                ck.add_violation(f"exhaustive enumeration of the dispatch protocol on {j['size']} ranks / "
+                                 f"{j['params']['ntasks']} task(s), {j['schedule']['send_mode']} sends: {o['count']} of "
+                                 f"{d['schedules']} schedules end with {oc}", {"job": j, "bad": d["bad"][:2]})
     ans = ck.driver("GenMpi", reqs)
     if ans is not None:
         for (jid, kind, m, got, rep), a, line in zip(req_meta, ans, reqs):
